@@ -777,7 +777,11 @@ func runStress(c *vh.Ctx) {
 
 func reportChild(c *vh.Ctx, o childOut) {
 	if o.err != "" {
-		c.Violation("crash:"+crashKind(o.stderr+o.err), fmt.Sprintf("%s child died (%s): %s", o.cs.Kind, o.err, o.stderr), o.cs)
+		sig := "crash:" + crashKind(o.stderr+o.err)
+		if o.cs.Kind != "stress" {
+			sig += "@" + o.cs.Kind // the stream is part of the signature so that its (sturdier) replay is kept beside a forced schedule's
+		}
+		c.Violation(sig, fmt.Sprintf("%s child died (%s): %s", o.cs.Kind, o.err, o.stderr), o.cs)
 		return
 	}
 	for _, v := range o.res.Vios {
@@ -885,6 +889,13 @@ func replay(c *vh.Ctx) {
 	}
 	switch cs.Kind {
 	case "stress", "storm", "script":
+		// free-running cases are judged without the model; it is started only to show that the driver still answers
+		if m, err := vh.StartModel(c.ModelPath); err == nil {
+			if resp, err := m.Ask("run\t1\ts|r\tr0,r0,r1"); err == nil && strings.HasPrefix(resp, "n=") {
+				c.Res.ModelUsed = true
+			}
+			m.Close()
+		}
 		bin := vh.Self()
 		if cs.Race {
 			if rb, err := buildRace(c); err == nil {
